@@ -406,6 +406,8 @@ class Gen:
             self.decl(fr, pname, kind, arg)
         for s in split_top(body, ';'):
             self.stmt(fr, s.strip())
+            if fr.get('done'):                                  # nothing after a return is executed
+                break
         self.depth -= 1
         return fr.get('ret')
 
@@ -529,13 +531,16 @@ class Gen:
             raise e2
 
     def stmt_(self, fr, s):
-        if not s or re.fullmatch(r'return\s+\*\s*this', s):
+        if not s:
+            return
+        if re.fullmatch(r'return\s+\*\s*this', s) or s == 'return':
+            fr['done'] = True
             return
         if s.startswith('__asm__'):
             return self.asm(fr, s)
         m = re.fullmatch(r'return\s+(.*)', s, re.S)
         if m:
-            fr['ret'] = self.expr(fr, m.group(1))
+            fr['ret'] = self.expr(fr, m.group(1)); fr['done'] = True
             return
         m = re.fullmatch(r'(?:const\s+)?((?:unsigned\s+|long\s+)*\w+)\s+(?!=)(.*)', s, re.S)
         if m and ' '.join(m.group(1).split()) in TYPES and re.match(r'[A-Za-z_]', m.group(2)):
